@@ -246,6 +246,42 @@ pub fn run(thorough: bool, seed: u64, driver: &str, rep: &mut Report) {
     let mut rng = Rng::new(seed);
     let mut reqs: Vec<String> = vec![];
     let mut pend: Vec<Option<Pend>> = vec![];
+    // ---- how the FILE is read: a tree wrapped over several lines (with a `;` inside a comment on an early line) is the same
+    // tree as the text on one line; a file that is not UTF-8 is refused (no label is invented for undecodable bytes) ----
+    {
+        let wrapped = ["(A:1,\n(B[&note=x;y]:2,C:3):4,\nD:5);\n", "(A[;]:1,\r\n B:2,\r\n (C:3,D:4)[a;b;c]:5);", "((A:1,B:2)[first line; still a comment]:3,\n\n(C:1,D:1):2,\nE:7)R;\n(ignored,second,tree);\n"];
+        for (i, text) in wrapped.iter().enumerate() {
+            let one_line: String = text.lines().map(|l| l.trim()).collect::<Vec<_>>().join("");
+            let (fw, fo) = (format!("{dir}/wrapped{i}.nwk"), format!("{dir}/oneline{i}.nwk"));
+            if std::fs::write(&fw, text).is_err() || std::fs::write(&fo, &one_line).is_err() { continue; }
+            let ctx0 = format!("tree file (several lines): {text:?}");
+            rep.case(&ctx0, true);
+            for args in [vec!["rescale", "2"], vec!["stats"], vec!["matrix"], vec!["resolve"]] {
+                let (mut a, mut b) = (args.clone(), args.clone());
+                a.push(&fw); b.push(&fo);
+                let (ra, rb) = (run_cli(&a), run_cli(&b));
+                rep.count("runs:wrapped-file");
+                if rb.code == Some(0) && args[0] != "resolve" && (ra.code != rb.code || ra.stdout != rb.stdout) {
+                    rep.oracle("file-reading", &format!("{}:wrapped-file-differs-from-one-line-file", args[0]), &format!("{ctx0}\nphylotree {} FILE", args.join(" ")), &format!("exit {:?} {:?}; the same text on one line: exit {:?} {:?}", ra.code, ra.stdout.chars().take(300).collect::<String>(), rb.code, rb.stdout.chars().take(300).collect::<String>()));
+                } else if rb.code == Some(0) && ra.code != rb.code {
+                    rep.oracle("file-reading", &format!("{}:wrapped-file-refused", args[0]), &format!("{ctx0}\nphylotree {} FILE", args.join(" ")), &format!("exit {:?}", ra.code));
+                }
+            }
+        }
+        for (i, bytes) in [&b"((A:1,caf\xe9:1):1,C:1,D:1);"[..], &b"((A:1,B:1)\xff\xfe:1,C:1,D:1);"[..], &b"(A:1,B:2,C:3)[\xe8];"[..]].iter().enumerate() {
+            let f = format!("{dir}/latin{i}.nwk");
+            if std::fs::write(&f, bytes).is_err() { continue; }
+            let ctx0 = format!("tree file (bytes that are not UTF-8): {:?}", String::from_utf8_lossy(bytes));
+            rep.case(&ctx0, true);
+            for sub in ["stats", "matrix"] {
+                let r = run_cli(&[sub, &f]);
+                rep.count("runs:non-utf8-file");
+                if r.code == Some(0) {
+                    rep.oracle("file-reading", &format!("{sub}:undecodable-file-accepted"), &format!("{ctx0}\nphylotree {sub} FILE"), &r.stdout.chars().take(300).collect::<String>());
+                }
+            }
+        }
+    }
     // ---- numeric corners and annotated trees (contract oracles on the real binary only; the arena model carries exact integers):
     // NaN / infinite lengths and thresholds for collapse ("only branches SHORTER than the threshold become zero": NaN is not shorter
     // than anything, nothing is shorter than NaN), bracket comments through every transform with and without -o ----
